@@ -123,3 +123,11 @@ func VerifSysHoldNextRequest(entered chan<- struct{}, release <-chan struct{}) (
 		verifPoolMu.Unlock()
 	}
 }
+
+// VerifSysHoldCommitLock takes the oracle's writeChLock exactly as a committer that is slow
+// inside commitAndSend holds it; other committers then wait at the first line of
+// commitAndSend. The returned function releases it. A schedule point, nothing else changes.
+func VerifSysHoldCommitLock(db *DB) (release func()) {
+	db.orc.writeChLock.Lock()
+	return db.orc.writeChLock.Unlock
+}
